@@ -68,6 +68,9 @@ def items(tier, seed):
     for nu, nv in ([(2, 2), (2, 3)] if tier == 'quick' else [(2, 2), (2, 3), (3, 2), (3, 3)]):
         for k in (2, 3, 4):
             its.append((nu, nv, k, 'kernel+main'))
+    # complex-valued forms (dtype=complex, complex integrand): the workers' output buffer must carry the form's dtype
+    for nu, nv, k in ((1, 1, 1), (2, 2, 2), (2, 3, 3), (3, 2, 4)):
+        its.append((nu, nv, k, 'kernel', 'complex'))
     # one triangle configuration with many pairs (P1 x P2: 18 pairs)
     its.append(('tri', 3, 6, 2, 'kernel'))
     its.append(('tri', 3, 6, 5, 'kernel'))
@@ -77,7 +80,7 @@ def items(tier, seed):
 def cost(item):
     if item[0] == 'tri':
         return 50
-    nu, nv, k, mode = item
+    nu, nv, k, mode = item[:4]
     return (nu * nv) ** 2 * (10 if mode == 'line' else 3 if mode == 'kernel+main' else 1)
 
 
@@ -110,6 +113,9 @@ class Harness:
         import skfem
         from skfem import MeshLine, MeshTri, Basis
         import skfem.element as E
+        self.cx = item[-1] == 'complex'
+        if self.cx:
+            item = item[:-1]
         if item[0] == 'tri':
             _, nu, nv, k, mode = item
             m = MeshTri(np.array([[0, 0], [1, 0], [0, 1], [1.25, .75]]).T, np.array([[0, 1, 2], [1, 3, 2]]).T)
@@ -130,6 +136,7 @@ class Harness:
         self.bf = bf
         self.codes = {bf.BilinearForm._threaded_kernel.__code__, bf.BilinearForm._kernel.__code__}
         self.sched = None
+        self.fkw = {'dtype': np.complex128} if self.cx else {}
         self.serial = self.run_serial()
         self.dig0 = self.operand_digest()
 
@@ -147,13 +154,14 @@ class Harness:
             if getattr(th, 'kcalls', 0) > 0:
                 s.maybe_yield()
             th.kcalls = getattr(th, 'kcalls', 0) + 1
-        return u * v * (1. + w.x[0]) + w['c'] * u * v.grad[0] + u.grad[0] * v * w.h
+        r = u * v * (1. + w.x[0]) + w['c'] * u * v.grad[0] + u.grad[0] * v * w.h
+        return r * (1. + 2.j) + 3.j * u * v if self.cx else r
 
     def run_serial(self):
         from skfem import BilinearForm
         self.log = []
         self.sched = None
-        A = BilinearForm(self.integrand, nthreads=0).assemble(self.ub, self.vb, c=self.coef)
+        A = BilinearForm(self.integrand, nthreads=0, **self.fkw).assemble(self.ub, self.vb, c=self.coef)
         self.serial_log = list(self.log)
         return A
 
@@ -168,7 +176,7 @@ class Harness:
         err = None
         A = None
         try:
-            A = BilinearForm(self.integrand, nthreads=self.k).assemble(self.ub, self.vb, c=self.coef)
+            A = BilinearForm(self.integrand, nthreads=self.k, **self.fkw).assemble(self.ub, self.vb, c=self.coef)
         except (S.Divergence, S.Deadlock) as e:
             err = e
         finally:
@@ -214,8 +222,10 @@ def work(item, tier, seed):
     nu, nv, k, mode = H.nu, H.nv, H.k, H.mode
     npairs = nu * nv
     chunks = [len(c) for c in np.array_split(np.arange(npairs), k)]
-    label = f"{'tri' if item[0] == 'tri' else 'line'}:{nu}x{nv}:threads={k}:{mode}"
-    sig0 = f"C16|Nu={nu},Nv={nv}|threads={k}|{mode}|"
+    label = f"{'tri' if item[0] == 'tri' else 'line'}:{nu}x{nv}:threads={k}:{mode}{':complex' if H.cx else ''}"
+    sig0 = f"C16|Nu={nu},Nv={nv}|threads={k}|{mode}{':complex' if H.cx else ''}|"
+    if H.cx and (not np.iscomplexobj(H.serial.data) or not np.abs(H.serial.data.imag).max() > 0):
+        out.harness_error("complex configuration: the serial matrix has no imaginary part")
     if mode == 'kernel':
         segs = [max(c, 1) for c in chunks]
         total = n_interleavings(segs)
